@@ -8,6 +8,7 @@ import (
 	"testing"
 	"time"
 
+	"github.com/pion/turn/v5"
 	"github.com/pion/turn/v5/verifharness/sim"
 	"github.com/pion/turn/v5/verifharness/simnet"
 	"github.com/pion/turn/v5/verifharness/wire"
@@ -31,6 +32,7 @@ func init() {
 	sim.RegisterKind("pipe-bytes", "C16")
 	sim.RegisterKind("pipe-close", "C16")
 	sim.RegisterKind("server-wedged", "C16", "C18")
+	sim.RegisterKind("client-tcp", "C16", "C13")
 	sim.RegisterKind("conn-open-after-death", "C15", "C16")
 }
 
@@ -633,6 +635,160 @@ func init() {
 
 			return 700
 		},
-		Run: runC16,
+		Run: func(t *testing.T, rng *rand.Rand, rec *sim.Rec, tier string, caseNo int) {
+			if caseNo%6 == 5 {
+				runC16RealClient(t, rng, rec, tier, caseNo)
+
+				return
+			}
+			runC16(t, rng, rec, tier, caseNo)
+		},
 	})
+}
+
+// runC16RealClient: the real client's RFC 6062 API (AllocateTCP, DialTCP, AcceptTCP) end to end
+// against the real server over simulated TCP: connections come up, are attributed to the right
+// peer, and carry bytes intact in both directions.
+func runC16RealClient(t *testing.T, rng *rand.Rand, rec *sim.Rec, tier string, caseNo int) {
+	cfg := sim.Config{
+		Realm: "verif.test", Users: map[string]string{"alice": "pw-a"},
+		TCPListeners: []*net.TCPAddr{{IP: sim.ServerIP4, Port: 3478}},
+	}
+	w, err := sim.NewWorld(cfg, rec, rng, true)
+	if err != nil {
+		t.Fatal(err)
+	}
+	defer w.Shutdown()
+	w.Net.LogSends = false
+	ctrl, err := w.Net.DialTCP(net.IPv4(10, 1, 1, 1).To4(), 0, w.ServerTCP[0].TCPAddr())
+	if err != nil {
+		t.Fatal(err)
+	}
+	logs := sim.NewLogSink()
+	vn := &simnet.VNet{N: w.Net, HostIP4: net.IPv4(10, 1, 1, 1).To4()}
+	cl, err := turn.NewClient(&turn.ClientConfig{
+		STUNServerAddr: "10.0.0.1:3478", TURNServerAddr: "10.0.0.1:3478", Conn: turn.NewSTUNConn(ctrl),
+		Username: "alice", Password: "pw-a", Realm: "verif.test", Net: vn, LoggerFactory: logs,
+	})
+	if err != nil {
+		t.Fatal(err)
+	}
+	defer cl.Close()
+	if err := cl.Listen(); err != nil {
+		t.Fatal(err)
+	}
+	alloc, err := cl.AllocateTCP()
+	if err != nil {
+		rec.Violate("client-tcp", "allocate", "AllocateTCP failed: %v", err)
+
+		return
+	}
+	relay := alloc.Addr().String()
+	check := func(a, b net.Conn, what string) {
+		for dir := 0; dir < 2; dir++ {
+			n := pick(rng, []int{1, 100, 3000, 20000})
+			buf := make([]byte, n)
+			rng.Read(buf)
+			src, dst := a, b
+			if dir == 1 {
+				src, dst = b, a
+			}
+			if _, err := src.Write(buf); err != nil {
+				rec.Violate("client-tcp", what+"/write", "%s: write failed: %v", what, err)
+
+				return
+			}
+			got := make([]byte, 0, n)
+			tmp := make([]byte, 4096)
+			_ = dst.SetReadDeadline(time.Now().Add(5 * time.Second))
+			for len(got) < n {
+				k, err := dst.Read(tmp)
+				if err != nil {
+					break
+				}
+				got = append(got, tmp[:k]...)
+			}
+			if !bytes.Equal(got, buf) {
+				rec.Violate("client-tcp", what+"/bytes", "%s: %d bytes sent, %d arrived (first difference at %d)", what, n, len(got), firstDiff(got, buf))
+
+				return
+			}
+			rec.Ev("client-tcp-stream-comparisons")
+		}
+	}
+	rounds := 1 + rng.Intn(3)
+	for i := 0; i < rounds && len(rec.Violations()) == 0; i++ {
+		peerIP := net.IPv4(10, 2, 0, byte(1+i)).To4()
+		if rng.Intn(2) == 0 {
+			// outbound: Dial through the relay
+			l, _ := w.Net.ListenTCP(peerIP, 8000+i)
+			acc := make(chan net.Conn, 1)
+			go func() {
+				if c, err := l.Accept(); err == nil {
+					acc <- c
+				}
+			}()
+			dc, err := alloc.DialTCP("tcp", nil, l.TCPAddr())
+			if err != nil {
+				rec.Violate("client-tcp", "dial", "DialTCP to a listening peer failed: %v", err)
+				_ = l.Close()
+
+				return
+			}
+			var pe net.Conn
+			select {
+			case pe = <-acc:
+			case <-time.After(5 * time.Second):
+				rec.Violate("client-tcp", "dial-no-peer-conn", "DialTCP returned but the peer accepted nothing")
+				_ = l.Close()
+
+				return
+			}
+			if pe.RemoteAddr().String() != relay || dc.RemoteAddr().String() != l.TCPAddr().String() || dc.LocalAddr().String() != relay {
+				rec.Violate("client-tcp", "dial-addresses", "DialTCP: peer sees %s (relay %s); conn reports remote %s local %s", pe.RemoteAddr(), relay, dc.RemoteAddr(), dc.LocalAddr())
+			}
+			check(dc, pe, "dialed connection")
+			_ = dc.Close()
+			time.Sleep(time.Second)
+			_ = pe.Close()
+			_ = l.Close()
+			rec.FP("client-tcp/dial")
+		} else {
+			// inbound: a permitted peer connects to the relayed address, the client accepts
+			if err := cl.CreatePermission(&net.TCPAddr{IP: peerIP, Port: 1}); err != nil {
+				rec.Violate("client-tcp", "createpermission", "CreatePermission failed: %v", err)
+
+				return
+			}
+			ra, _ := net.ResolveTCPAddr("tcp", relay)
+			pe, err := w.Net.DialTCP(peerIP, 0, ra)
+			if err != nil {
+				rec.Violate("client-tcp", "peer-dial", "peer cannot reach the relayed address %s: %v", relay, err)
+
+				return
+			}
+			_ = alloc.SetDeadline(time.Now().Add(10 * time.Second))
+			ac, err := alloc.AcceptTCP()
+			if err != nil {
+				rec.Violate("client-tcp", "accept", "AcceptTCP did not deliver the inbound connection from %s: %v", pe.LocalAddr(), err)
+				_ = pe.Close()
+
+				return
+			}
+			if ac.RemoteAddr().String() != pe.LocalAddr().String() {
+				rec.Violate("client-tcp", "accept-addresses", "AcceptTCP attributes the connection to %s, it came from %s", ac.RemoteAddr(), pe.LocalAddr())
+			}
+			check(ac, pe, "accepted connection")
+			_ = pe.Close()
+			time.Sleep(time.Second)
+			_ = ac.Close()
+			rec.FP("client-tcp/accept")
+		}
+	}
+	_ = alloc.Close()
+	time.Sleep(10 * time.Second)
+	if n := w.Srv.AllocationCount(); n != 0 {
+		rec.Violate("client-tcp", "close", "AllocationCount=%d after TCPAllocation.Close", n)
+	}
+	rec.SetSample(map[string]any{"kind": "real-client-rfc6062", "rounds": rounds})
 }
